@@ -2,7 +2,7 @@ import copy
 import json
 from propbase import Prop, COMMON_TRUSTED, drop_one
 from coqterm import cbool, cZ, clist
-from mw_common import Broken, c_op, c_obs, c_desc, strip_outputs, simpler_msgs, count_ops
+from mw_common import Broken, c_op, c_obs, c_desc, strip_outputs, simpler_msgs, count_ops, fewer_ops
 
 LIM_FIELDS = ("max_subscriptions", "max_filters", "max_limit", "max_subid_length", "max_event_tags",
               "max_content_length", "created_at_lower_limit", "created_at_upper_limit")
@@ -27,7 +27,8 @@ class C17(Prop):
     harness_bin = "core"
     harness_sub = "c17"
     sizes = {"quick": 3000, "thorough": 60000}
-    gen_names = ("g_mw_", "g_nip11_", "g_quota_over", "GenMw", "handler.go")
+    gen_names = ("g_mw_", "g_nip11_outer_identity", "g_nip11_inner_identity", "g_nip11_chain", "g_quota_over")
+    max_reports = 3
     rule = ("60% stacks of 1..5 of the ten stateless limit middlewares (every kind regularly outermost; limits 1..3, "
             "created_at limits 30/120/600 s), 40% BuildMiddlewareFromNIP11 documents (nil pointer, no limitation block, "
             "every subset of the seven limits, a few negative counts), each driven through the real NewSimpleMiddleware "
@@ -80,7 +81,7 @@ class C17(Prop):
 
     def shrink(self, c):
         c = strip_outputs(c)
-        for ops in drop_one(c.get("ops") or []):
+        for ops in fewer_ops(c.get("ops") or []):
             yield dict(c, ops=ops)
         if c["k"] == "stack" and len(c.get("mws") or []) > 1:
             for mws in drop_one(c["mws"]):
